@@ -551,7 +551,15 @@ func restating(rng *common.Rng, sn *dbSnap, w *world, goneMsg, goneMb []string) 
 	}
 	var msgs []*dbMsg
 	for _, m := range sn.Ms {
-		if !m.Deleted && !strings.HasPrefix(m.RID, "DELETED") && w.litOf[m.IID] != "" {
+		inRecovery := false
+		for _, mb := range sn.mailboxesOf(m.IID) {
+			if mb.RID == recoveryRID {
+				inRecovery = true
+			}
+		}
+		// a message that sits in the protected mailbox (MessageUpdated does not refuse it) cannot be restated by a valid
+		// update: naming the mailbox is refused, not naming it would take the message out of it
+		if !m.Deleted && !strings.HasPrefix(m.RID, "DELETED") && w.litOf[m.IID] != "" && !inRecovery {
 			msgs = append(msgs, m)
 		}
 	}
